@@ -64,6 +64,8 @@ def advanceAll : Nat → Nat → St → List St
   | 0, _, s => [s]
   | fuel + 1, target, s =>
     (settleAll 200 s).flatMap (fun s =>
+      -- time passes only while the task is idle (out of settle fuel: stop here rather than let the clock run)
+      if !(turns s).isEmpty then [s] else
       match nextEvent s target with
       | some t => advanceAll fuel target { s with now := t }
       | none => settleAll 200 { s with now := target })
